@@ -11,12 +11,6 @@ import CCT.Model.Json
 -/
 namespace CCT
 
-open Lean in
-/-- `ps! "abc"` is the list of code points `[97, 98, 99]` -/
-macro "ps!" s:str : term => do
-  let cs : Array (TSyntax `term) := (s.getString.toList.map fun c => Syntax.mkNumLit (toString c.toNat)).toArray
-  `(([$cs,*] : List Nat))
-
 abbrev Bytes := List Nat         -- each element < 256 wherever it matters (stated in lemmas)
 
 inductive PyErr where
